@@ -1284,6 +1284,10 @@ impl<A: Subject> Runner<A> {
           if or & O_DISCARDED != 0 && post.discarded != pre.discarded.wrapping_add(bcap as u32) {
             v.push(Viol { flag: O_DISCARDED, class: "release-not-accounted".into(), msg: format!("{}: release of {} bytes (no segment created) changed discarded {} -> {}", op.short(), bcap, pre.discarded, post.discarded) });
           }
+          // C13: a release has an effect: cursor, list or the discarded counter
+          if or & O_RELEASE != 0 && post.discarded == pre.discarded && post.allocated == pre.allocated && post.nodes == pre.nodes {
+            v.push(Viol { flag: O_RELEASE, class: "release-without-effect".into(), msg: format!("{}: the release of [{},{}) changed neither the cursor nor the free list nor discarded()", op.short(), boff, boff + bcap) });
+          }
           self.dead.push((boff, bcap));
         }
         if or & O_FREELIST != 0 && self.cfg.fl == Fl::None && !post.nodes.is_empty() {
